@@ -49,6 +49,8 @@ def content(shape, idc, n):
     else:  # bundle: idc applies to the member
         inner_shape = {"t": "sdo", "sv": "none" if shape["sv"] == "2.0" else "2.1", "hasid": True}
         d = {"type": "bundle", "id": "bundle--11111111-1111-4111-8111-111111111111", "objects": [content(inner_shape, idc, n)]}
+        if shape["inner"] == "none":       # a bundle without members: no "objects" member at all (what Bundle().serialize() gives)
+            d.pop("objects")
     if shape["sv"] != "none":
         d["spec_version"] = shape["sv"]
     return d
@@ -80,11 +82,11 @@ def direct(d, ac, v, observable=False):
         return "err"
 
 
-def direct_wrapped(d, ac, v, eff):
+def direct_wrapped(d, ac, v, eff, form="bundle_dict"):
     """direct parse of the bundle wrapper; outcome = family of the member"""
     import stix2
     try:
-        b = stix2.parse(wrap("bundle_dict", d, eff), allow_custom=ac, version=v)
+        b = stix2.parse(wrap(form, d, eff), allow_custom=ac, version=v)
         return family(b["objects"][0]) if b.get("objects") else "absent"
     except Exception:  # noqa
         return "err"
@@ -130,9 +132,9 @@ def wrap(form, d, eff):
         return [[copy.deepcopy(d)]]
     if form == "list_json":
         return [json.dumps(d)]
-    if form == "bundle_dict":
+    if form in ("bundle_dict", "bundle_dict_other_style"):
         b = {"type": "bundle", "id": "bundle--22222222-2222-4222-8222-222222222222", "objects": [copy.deepcopy(d)]}
-        if eff == "2.0":
+        if (eff == "2.0") == (form == "bundle_dict"):      # the wrapper in the style of the effective version / of the other version
             b["spec_version"] = "2.0"
         return b
     raise ValueError(form)
@@ -174,7 +176,7 @@ def run_entry(entry, form, d, arg, ac, eff, scratch):
     from stix2 import Filter, FileSystemSink, FileSystemSource, FileSystemStore, MemorySink, MemorySource, MemoryStore
     v = None if arg == "none" else arg
     oid = d.get("id")
-    if d["type"] == "bundle":
+    if d["type"] == "bundle" and d.get("objects"):
         oid = d["objects"][0]["id"]
     tmp = tempfile.mkdtemp(prefix="c14-", dir=scratch)
     try:
@@ -232,8 +234,8 @@ def observe(entry, form, cell, n, scratch):
     # the direct parse of the same content (bundle forms: the member is what is stored, parsed as a member of a wrapper of the effective version's style)
     line = {"entry": entry, "form": form, "arg": arg, "shape": shape, "idc": idc, "ac": ac,
             "d20": direct(d, ac, "2.0", obs), "d21": direct(d, ac, "2.1", obs),
-            "w20": direct_wrapped(d, ac, "2.0", cell["eff"]) if form == "bundle_dict" else "n/a",
-            "w21": direct_wrapped(d, ac, "2.1", cell["eff"]) if form == "bundle_dict" else "n/a"}
+            "w20": direct_wrapped(d, ac, "2.0", cell["eff"], form) if form.startswith("bundle_dict") else "n/a",
+            "w21": direct_wrapped(d, ac, "2.1", cell["eff"], form) if form.startswith("bundle_dict") else "n/a"}
     try:
         line["outcome"] = run_entry(entry, form, d, arg, ac, cell["eff"], scratch)
         line["exc"] = "none"
@@ -288,7 +290,7 @@ def applicable(entry, shape, idc):
     if (idc == "noid") != (not shape["hasid"]):
         return False
     if shape["t"] == "bundle":
-        return entry == "parse"
+        return entry == "parse" and (shape["inner"] != "none" or idc == "uuid4")      # (the identifier class is the member's: an empty bundle has one cell)
     if not shape["hasid"]:
         return entry in ("parse", "parse_observable")
     if entry == "parse_observable":
@@ -322,7 +324,9 @@ def run(chk):
         for entry, forms in sorted(ENTRY_FORMS.items()):
             if not applicable(entry, cell["shape"], cell["idc"]):
                 continue
-            for form in forms:
+            # a store given a bundle takes its members one by one: when the caller names a version, a wrapper written in the other version's style must not change anything
+            more = ["bundle_dict_other_style"] if "bundle_dict" in forms and cell["arg"] != "none" and cell["shape"]["t"] != "bundle" else []
+            for form in forms + more:
                 n += 1
                 ln = observe(entry, form, cell, n, chk.scratch)
                 lines.append(ln)
